@@ -72,6 +72,7 @@ var (
 	rec      = interp.NewRecorder()
 	shared   []templ.Component // Page(handle, items) per program: shared by all goroutines
 	bare     []templ.Component // Interp(items) per program
+	gallery  []templ.Component // Gallery(params) per variant
 	handles  []*templ.OnceHandle
 	renderID int64
 	hookN    int64
@@ -137,11 +138,11 @@ func renderHandler(c templ.Component) want {
 type job struct {
 	prog int
 	plan int
-	via  int // 0 Page into FaultWriter, 1 bare Interp into FaultWriter, 2 ToGoHTML, 3 buffered Handler
+	via  int // 0 Page into FaultWriter, 1 bare Interp into FaultWriter, 2 ToGoHTML, 3 buffered Handler, 4 Gallery variant `prog` into FaultWriter
 }
 
 func (j job) String() string {
-	return fmt.Sprintf("program %d via %s, writer plan %+v", j.prog, []string{"Page", "Interp", "ToGoHTML", "Handler"}[j.via], plans[j.plan])
+	return fmt.Sprintf("program %d via %s, writer plan %+v", j.prog, []string{"Page", "Interp", "ToGoHTML", "Handler", "Gallery"}[j.via], plans[j.plan])
 }
 
 func run(j job, slow bool) want {
@@ -152,9 +153,22 @@ func run(j job, slow bool) want {
 		return renderOnce(bare[j.prog], plans[j.plan], slow)
 	case 2:
 		return renderToGoHTML(shared[j.prog])
-	default:
+	case 3:
 		return renderHandler(shared[j.prog])
+	default:
+		return renderOnce(gallery[j.prog], plans[j.plan], slow)
 	}
+}
+
+const galleryVariants = 8
+
+// galleryParams: every variant has its own class names, attribute values and data, so that anything
+// leaking from a render of one variant into a concurrent render of another one is visible.
+func galleryParams(v int) Params {
+	id := fmt.Sprintf("v%d", v)
+	return Params{ID: id, N: 10 + v,
+		Attrs: templ.Attributes{"data-" + id: id, "title": "t-" + id, "hidden": v%2 == 0},
+		Data:  map[string]any{"id": id, "n": v, "list": []int{v, v + 1}}}
 }
 
 func setup() {
@@ -170,6 +184,9 @@ func setup() {
 		shared = append(shared, Page(handles[i], items))
 		bare = append(bare, interp.Interp(items))
 	}
+	for v := 0; v < galleryVariants; v++ {
+		gallery = append(gallery, Gallery(galleryParams(v)))
+	}
 }
 
 func reference() map[job]want {
@@ -182,6 +199,15 @@ func reference() map[job]want {
 				}
 				j := job{p, pl, via}
 				ref[j] = run(j, false)
+			}
+		}
+	}
+	for v := 0; v < galleryVariants; v++ {
+		for pl := range plans {
+			j := job{v, pl, 4}
+			ref[j] = run(j, false)
+			if again := run(j, false); again != ref[j] {
+				vhlib.Fatal("the solo reference of %s is not deterministic: %q vs %q", j, ref[j].sink, again.sink)
 			}
 		}
 	}
@@ -278,7 +304,8 @@ func main() {
 	}
 
 	var wg sync.WaitGroup
-	deadline := time.Now().Add(time.Duration(N) * time.Millisecond)
+	start := time.Now()
+	deadline := start.Add(time.Duration(N) * time.Millisecond)
 	for g := 0; g < G; g++ {
 		wg.Add(1)
 		go func(g int) {
@@ -289,6 +316,12 @@ func main() {
 					if time.Now().After(deadline) {
 						return
 					}
+					// All goroutines leave the same 130ms of every 500ms without any render: whatever policy the
+					// cache uses to decide WHEN to look at the file again (that is C16's business), it reloads
+					// after such a gap, and the first renders after it race for the reload.
+					if el := time.Since(start) % (500 * time.Millisecond); el < 130*time.Millisecond {
+						time.Sleep(130*time.Millisecond - el)
+					}
 				} else if m >= N {
 					return
 				}
@@ -298,6 +331,9 @@ func main() {
 					j.via, j.plan = 2, 0
 				case 1:
 					j.via, j.plan = 3, 0
+				case 2, 3, 4, 5:
+					// neighbouring goroutines render different variants at the same time
+					j.via, j.prog = 4, (g+m)%galleryVariants
 				}
 				got := run(j, g%3 == 0)
 				atomic.AddInt64(&renders, 1)
@@ -315,6 +351,7 @@ func main() {
 		}(g)
 	}
 	wg.Wait()
+	vhlib.Sample(map[string]any{"component": "Gallery variant 0 rendered alone (the reference of the concurrent renders)", "document": ref[job{0, 0, 4}].sink})
 	nids, dup := handleIDs(G)
 	if dup != "" {
 		vhlib.Fail("UniqueIds", "two once handles created concurrently share an id", map[string]any{"id": dup})
@@ -331,6 +368,8 @@ func main() {
 
 // ---------------------------------------------------------------------------------------------
 // development mode: the literal text files, and a goroutine that keeps rewriting them
+
+var letterEscape = regexp.MustCompile(`\\[A-Za-z]`)
 
 var litRe = regexp.MustCompile(`templruntime\.WriteString\(templ_7745c5c3_Buffer, (\d+), "((?:[^"\\]|\\.)*)"\)`)
 
@@ -358,8 +397,8 @@ func literalFile(goFile string) txtFile {
 		if i != len(lits)+1 {
 			vhlib.Fatal("literal indexes of %s are not 1..n", goFile)
 		}
-		if strings.Contains(m[2], `\`) {
-			vhlib.Fatal("literal with escapes in %s: upper-casing is not safe", goFile)
+		if letterEscape.MatchString(m[2]) {
+			vhlib.Fatal("literal with a letter escape in %s: upper-casing is not safe", goFile)
 		}
 		lits = append(lits, m[2])
 	}
@@ -383,7 +422,8 @@ func writeAtomic(path, content string) {
 // startRewriter writes variant a of every literal file (for the sequential reference) and returns a stop func.
 func startRewriter() func() int {
 	_, self, _, _ := runtime.Caller(0)
-	txts = []txtFile{literalFile(interp.GeneratedFile()), literalFile(filepath.Join(filepath.Dir(self), "page_templ.go"))}
+	txts = []txtFile{literalFile(interp.GeneratedFile()), literalFile(filepath.Join(filepath.Dir(self), "page_templ.go")),
+		literalFile(filepath.Join(filepath.Dir(self), "shared_templ.go"))}
 	for _, t := range txts {
 		writeAtomic(t.path, t.a)
 	}
